@@ -137,6 +137,84 @@ func (sc *scenario) steadyCheck() {
 	}
 }
 
+// freeCheck (op `freecheck`, free-running cases only: single-byte input, so no escape sequence can be cut by the
+// escape timer): the consumer polls again and nothing was shut down, so every injected input event must arrive —
+// the check waits for the expected number of events (at most the hang deadline) and then compares the sequences:
+// exactly once, in order.  Posted events that were accepted must arrive too.
+func (sc *scenario) freeCheck() {
+	if !sc.c.free.Load() || sc.suspended || sc.readErrInjected || sc.paused.Load() {
+		sc.tag("freecheck-skipped")
+		return
+	}
+	sc.tag("free-check")
+	want := len(sc.exp)
+	accepted := func() int {
+		n := 0
+		for p := range sc.postRes {
+			for i, ok := range sc.postRes[p] {
+				if ok && !sc.postTime[p][i].IsZero() {
+					n++
+				}
+			}
+		}
+		return n
+	}
+	count := func() (int, int) {
+		sc.gmu.Lock()
+		defer sc.gmu.Unlock()
+		k, pi := 0, 0
+		for _, d := range sc.got {
+			if isInput(d.desc) {
+				k++
+			} else if d.desc[0] == 'I' {
+				pi++
+			}
+		}
+		return k, pi
+	}
+	dl := time.Now().Add(time.Duration(sc.hangMs) * time.Millisecond)
+	for time.Now().Before(dl) {
+		if k, pi := count(); k >= want && pi >= accepted() && sc.feedDone.Load() {
+			break
+		}
+		time.Sleep(time.Millisecond)
+	}
+	time.Sleep(5 * time.Millisecond) // anything that would arrive twice gets its chance
+	sc.gmu.Lock()
+	var got []string
+	have := map[string]bool{}
+	for _, d := range sc.got {
+		if isInput(d.desc) {
+			got = append(got, d.desc)
+		} else if d.desc[0] == 'I' {
+			have[d.desc] = true
+		}
+	}
+	sc.gmu.Unlock()
+	if strings.Join(got, ",") != strings.Join(sc.exp, ",") {
+		m := match(got, sc.exp)
+		sub := true
+		for _, k := range m {
+			if k < 0 {
+				sub = false
+			}
+		}
+		switch {
+		case sub && len(got) < len(sc.exp):
+			sc.find("input-event-lost", "free running: %d of %d input events were delivered within %d ms although the consumer polls and nothing was shut down; delivered: %s", len(got), len(sc.exp), sc.hangMs, clipList(got, 60))
+		default:
+			// duplicated / reordered / spurious: classified by finalOracles on the complete run
+		}
+	}
+	for p := range sc.postRes {
+		for i, ok := range sc.postRes[p] {
+			if ok && !sc.postTime[p][i].IsZero() && !have[fmt.Sprintf("I%d.%d", p, i)] {
+				sc.find("post-accepted-but-lost", "free running: PostEvent #%d of poster %d returned nil but the event was not delivered within %d ms although the consumer polls", i, p, sc.hangMs)
+			}
+		}
+	}
+}
+
 // resumeCheck (op `check2`): after Suspend + Resume the input injected after Resume must arrive, and a resize too
 func (sc *scenario) resumeCheck() {
 	if !sc.resumed || sc.paused.Load() || sc.c.free.Load() || sc.readErrInjected {
